@@ -60,7 +60,7 @@ impl CRawWaker {
         }
         unsafe fn wake(data: *const ()) {
             let this = BaseArc::from_raw(data as *const CRawWaker);
-            (this.vtable.wake)(this.waker)
+            (this.vtable.wake_by_ref)(this.waker)
         }
         unsafe fn wake_by_ref(data: *const ()) {
             let data = data as *const CRawWaker;
@@ -68,13 +68,18 @@ impl CRawWaker {
             (this.vtable.wake_by_ref)(this.waker)
         }
         unsafe fn drop(data: *const ()) {
-            let this = BaseArc::from_raw(data as *const CRawWaker);
-            (this.vtable.drop)(this.waker)
+            let _ = BaseArc::from_raw(data as *const CRawWaker);
         }
 
         let vtbl = &RawWakerVTable::new(clone, wake, wake_by_ref, drop);
 
         RawWaker::new(this.into_raw() as *const (), vtbl)
+    }
+}
+
+impl Drop for CRawWaker {
+    fn drop(&mut self) {
+        unsafe { (self.vtable.drop)(self.waker) }
     }
 }
 
